@@ -92,8 +92,8 @@ fn call_for(entry: usize) -> BoxedStrategy<Call> {
 pub fn prog() -> BoxedStrategy<Prog> {
     (0usize..ENTRIES.len(), any::<bool>(), any::<bool>(), uri_case(), gen::any_i32(), gen::payload(), (any::<u16>(), any::<u8>(), any::<u32>(), any::<bool>()))
         .prop_flat_map(|(entry, direct, via_from, uri, job_id, payload, raw)| {
-            let ncalls = if entry >= 8 { 0..1usize } else { 0..6usize };
-            (Just((entry, direct, via_from, uri, job_id, payload, raw)), proptest::collection::vec(call_for(entry), ncalls))
+            let ncalls = if entry >= 8 { gen::count(0, 0, 0) } else if entry == 1 { prop_oneof![2 => Just(1usize), 3 => 0..6usize].boxed() } else { (0..6usize).boxed() };
+            (Just((entry, direct, via_from, uri, job_id, payload, raw)), ncalls.prop_flat_map(move |n| proptest::collection::vec(call_for(entry), n)))
         })
         .prop_map(|((entry, direct, via_from, uri, job_id, payload, raw), calls)| Prog { entry, direct, via_from, uri, job_id, payload, calls, raw_version: raw.0, raw_code_idx: raw.1, raw_id: raw.2, raw_with_uri: raw.3 })
         .boxed()
@@ -556,7 +556,17 @@ fn c09_add_name() -> BoxedStrategy<String> {
 
 fn c09_case() -> BoxedStrategy<C09Case> {
     let group = prop_oneof![6 => Just(1u8), 2 => Just(2u8), 1 => Just(4u8), 1 => Just(5u8)];
-    (prog(), proptest::collection::vec((group, c09_add_name(), gen::m_value(0, false)), 0..20)).prop_map(|(prog, adds)| C09Case { prog, adds }).boxed()
+    (prog(), any::<u8>(), proptest::collection::vec((group, c09_add_name(), gen::m_value(0, false)), 0..20))
+        .prop_map(|(mut prog, force, adds)| {
+            // 30%: an entry point that does not seed printer-uri, so that a lone job-uri / job-id can occur
+            if force < 77 {
+                prog.entry = [8usize, 10, 11][force as usize % 3];
+                prog.raw_with_uri = false;
+                prog.calls.clear();
+            }
+            C09Case { prog, adds }
+        })
+        .boxed()
 }
 
 fn c09_json(c: &C09Case) -> Value {
